@@ -185,6 +185,7 @@ fn gen(rng: &mut Rng, tier: &str) -> Vec<(String, Value)> {
     if std::env::var("C27_STREAM").as_deref() == Ok("files") { return files::gen(rng, tier) }
     let thorough = tier == "thorough";
     let mut cases = Vec::new();
+    let mut big = Vec::new();     // expensive to evaluate inside Coq; spread over the list at the end
     // (a) exhaustive small scope: the empty input and every one-byte input for every kind with a tag or version
     //     octet; every byte value inside a URI (pins the character class of the URI check)
     for kind in KINDS { cases.push(case("exhaustive.empty", kind, &[])); }
@@ -248,10 +249,10 @@ fn gen(rng: &mut Rng, tier: &str) -> Vec<(String, Value)> {
     // declared length larger than one chunk with less / exactly / more data behind it
     for (len, have) in [(65537u64, 65536usize), (65537, 65537), (65536, 65536), (131073, 70000), (70000, 70001), (1 << 20, 65536 + 5)] {
         let mut d = len.to_be_bytes().to_vec(); d.extend(std::iter::repeat(0x61u8).take(have));
-        cases.push(case("boundary.chunk", "bytes", &d));
+        big.push(case("boundary.chunk", "bytes", &d));
         if len < (1 << 20) {
             let mut d = (len as u32).to_be_bytes().to_vec(); d.extend(b"https://".iter().copied()); d.extend(std::iter::repeat(0x61u8).take(have - 8));
-            cases.push(case("boundary.chunk", "https", &d));
+            if thorough || have == 65536 { big.push(case("boundary.chunk", "https", &d)); }
         }
     }
     // (c) structured: all truncations and single-byte corruptions of valid encodings
@@ -307,6 +308,9 @@ fn gen(rng: &mut Rng, tier: &str) -> Vec<(String, Value)> {
             cases.push(case("random", kind, &d));
         }
     }
+    // the check evaluates consecutive slices of the list in parallel: one expensive case per slice
+    let step = cases.len() / (big.len() + 1);
+    for (i, b) in big.into_iter().enumerate().rev() { cases.insert((i + 1) * step, b); }
     cases
 }
 
